@@ -764,6 +764,84 @@ class Execution:
                 real.nodes[k].pop('atomid', None)
                 model.nodes[k].pop('atomid', None)
 
+    def op_coords_vs_itp(self, op, slots, fmt, seed):
+        """C03 at library level: coordinate file (PDB or GRO) and ITPs written for a system of pool members whose node
+        order, node keys and atom ids disagree; the k-th coordinate record must be the k-th [atoms] line."""
+        import numpy as np
+        from vermouth.system import System
+        from vermouth.gmx.itp import write_molecule_itp
+        from vermouth.gmx.gro import write_gro
+        from vermouth.pdb.pdb import write_pdb_string
+        from . import peval
+        slots = [s for s in slots if s in self.slots]
+        mols = []
+        rng = core.sub_rng(seed, 'positions')
+        for s in slots:
+            real, model = self.slots[s]
+            if not model.nodes or model.nrexcl is None:
+                continue
+            if not all(all(r in a for r in itpcheck.REQUIRED) for a in model.nodes.values()):
+                continue
+            if any(m.get('ifdef') is not None and m.get('ifndef') is not None for items in model.inter.values() for _, _, m in items):
+                continue
+            cp = real.copy()
+            for k in cp.nodes:
+                cp.nodes[k]['position'] = np.array([rng.uniform(0, 9), rng.uniform(0, 9), rng.uniform(0, 9)])
+            cp.meta['moltype'] = 'm%d' % len(mols)
+            mols.append(cp)
+        if not mols:
+            return False
+        system = System()
+        system.molecules = mols
+        if fmt == 'pdb':
+            out = self.call(write_pdb_string, system, conect=False)
+            self.expect_ok(out, op)
+            coord = peval.parse_pdb(out[1])
+        else:
+            import io
+            import vermouth.gmx.gro as gro_mod
+            buf = io.StringIO()
+
+            class _Ctx:
+                def __enter__(self_):
+                    return buf
+
+                def __exit__(self_, *exc):
+                    return False
+            real_open = gro_mod.deferred_open
+            gro_mod.deferred_open = lambda *a, **k: _Ctx()
+            try:
+                out = self.call(write_gro, system, 'unused.gro', defer_writing=True)
+            finally:
+                gro_mod.deferred_open = real_open
+            self.expect_ok(out, op)
+            lines = buf.getvalue().splitlines()
+            natoms = int(lines[1])
+            recs = [{'resid': int(l[0:5]), 'resname': l[5:10].strip(), 'name': l[10:15].strip()} for l in lines[2:2 + natoms]]
+            coord = []
+            pos = 0
+            for m in mols:
+                coord.append(recs[pos:pos + len(m)])
+                pos += len(m)
+        if len(coord) != len(mols) or any(len(c) != len(m) for c, m in zip(coord, mols)):
+            raise Violation('coords-molecule-split', expected=[len(m) for m in mols], actual=[len(c) for c in coord], detail=repr(op))
+        width = 4 if fmt == 'pdb' else 5
+        rwidth = 3 if fmt == 'pdb' else 5
+        mod = 10000 if fmt == 'pdb' else 100000
+        for j, (m, recs) in enumerate(zip(mols, coord)):
+            buf2 = io.StringIO() if fmt != 'pdb' else __import__('io').StringIO()
+            write_molecule_itp(m, buf2)
+            parsed = itpcheck.parse_itp(buf2.getvalue())
+            for k, (rec, tokens) in enumerate(zip(recs, parsed['atoms'])):
+                want = (tokens[4][:width], tokens[3][:rwidth], int(tokens[2]) % mod)
+                got = (rec['name'], rec['resname'], rec['resid'] % mod)
+                if want != got:
+                    raise Violation('atom-for-atom:' + fmt, expected={'itp': want, 'molecule': j, 'atom': k + 1}, actual={fmt: got},
+                                    signature='atom-for-atom:' + fmt, detail=repr(op))
+        self.stats.probes['coords_vs_itp_' + fmt] += 1
+        if any(list(m.nodes) != list(m.sorted_nodes) for m in mols):
+            self.stats.probes['coords_vs_itp_order_disagrees'] += 1
+
     def op_itp(self, op, slot, moltype):
         """C02 observation: write the state reached by this history and read it back."""
         from vermouth.gmx.itp import write_molecule_itp
@@ -944,6 +1022,11 @@ class Generator:
         m = self.models[slot]
         keys = list(m.nodes)
         r = rng.random()
+        if self.focus == 'C03' and rng.random() < 0.22:
+            if rng.random() < 0.5:
+                self.emit(['set_atomids', slot, rng.choice(['none', 'perm', 'perm', 'partial']), rng.randrange(1 << 20)])
+            self.emit(['coords_vs_itp', rng.sample(slots, rng.randint(1, len(slots))), rng.choice(['pdb', 'gro']), rng.randrange(1 << 20)])
+            return
         itp_p = 0.25 if self.focus == 'C02' else 0.04
         if r < itp_p:
             if rng.random() < 0.5:
@@ -1199,7 +1282,7 @@ class _MolCheck(core.Check):
         sd = core.digest(state)
         stats.states.add(sd)
         stats.nontrivial = any(e[0] in ('merge', 'merge_block', 'merge_system', 'copy', 'subgraph', 'remove_node',
-                                        'remove_nodes_from', 'itp') and e[1] for e in ex.events)
+                                        'remove_nodes_from', 'itp', 'coords_vs_itp') and e[1] for e in ex.events)
         return result(PASS, events=ex.events, stats=stats.to_json(), run_digest=core.digest([ex.events, sd]))
 
 
@@ -1239,3 +1322,21 @@ class C02Check(_MolCheck):
 
 CHECK_C12 = core.register(C12Check())
 CHECK_C02 = core.register(C02Check())
+
+
+class C03MCheck(_MolCheck):
+    id = 'C03M'
+    focus = 'C03'
+    rule = ('World M part: systems of history-made molecules (node order, node keys and atom ids disagreeing after merges, removals '
+            'and explicit atom-id permutations) are written with the real write_pdb_string / write_gro and write_molecule_itp; '
+            'the k-th coordinate record of each molecule must be the k-th [atoms] line. distinct = scenario digest; non-trivial = at '
+            'least one system written and compared')
+    probes_expected = ['coords_vs_itp_pdb', 'coords_vs_itp_gro', 'coords_vs_itp_order_disagrees']
+
+    def budgets(self, tier):
+        if tier == 'thorough':
+            return {'runs': 100000, 'determinism': 200, 'wall': 2400}
+        return {'runs': 6000, 'determinism': 40, 'wall': 600}
+
+
+CHECK_C03M = core.register(C03MCheck())
